@@ -5,8 +5,9 @@ package main
 // (closures capturing a variable declared from a literal in a loop body, three-clause loops, channels, recover,
 // blank assignments, elided `&` in composite literals, package-level comma-ok declarations). They are compared
 // between the interpreter and the compiled program only (impl-vs-ref). Every template of a repaired finding has
-// an empty class: any difference is a violation. The four templates of the findings that are still open carry
-// the class label of their finding (a property of the template, i.e. of the input).
+// an empty class: any difference is a violation. (The four findings that were still open when the stream was
+// written, F04-13 … F04-16, have been repaired since: no template carries a class label any more; the field stays
+// for future findings.)
 
 import (
 	"fmt"
@@ -70,7 +71,7 @@ func genSrc(rng *rand.Rand, k int) srcCase {
 	a, b, c := 1+rng.Intn(9), 1+rng.Intn(9), 10*(1+rng.Intn(9))
 	kd := srcKinds[rng.Intn(len(srcKinds))]
 	agg := srcKinds[rng.Intn(len(srcKinds)-1)] // not int
-	switch k % 16 {
+	switch k % 22 {
 	case 0: // F04-4: a variable declared from a literal in a loop body, captured by a closure
 		return srcCase{"closure-captures-literal-in-loop", "", srcHead + fmt.Sprintf(`func main() {
 	var fs []func() string
@@ -263,41 +264,174 @@ func main() {
 }
 `, agg.typ, strings.ReplaceAll(agg.lit(a, 77777), "77777", "i"), agg.typ, n, strings.ReplaceAll(agg.lit(b, 77777), "77777", "i*10+j"),
 			rng.Intn(2*n), agg.mut("(*x)", c))}
-	case 12: // open finding: key-only range over a nil pointer to an array
-		return srcCase{"range-nil-pointer-to-array-keyonly", "range-nil-ptr-array-keyonly", srcHead + fmt.Sprintf(`func main() {
+	case 12: // F04-13 (repaired by 9284c57): key-only / blank-value range over a nil pointer to an array; with a value it panics
+		// (not `for i, _ := range pn`: a blank VALUE variable is the open finding F04-17, template below)
+		form := []string{"for i := range pn {\n\t\tfmt.Println(i)", "for range pn {\n\t\tfmt.Println(\"x\")",
+			"for i, v := range pn {\n\t\tfmt.Println(i, v)"}[rng.Intn(3)]
+		return srcCase{"range-nil-pointer-to-array", "", srcHead + fmt.Sprintf(`func main() {
+	defer func() { fmt.Println("recovered:", recover() != nil) }()
 	var pn *[%d]%s
-	for i := range pn {
-		fmt.Println(i)
+	%s
 	}
-	fmt.Println("done", len(pn))
+	fmt.Println("done")
 }
-`, n, kd.typ)}
-	case 13: // open finding: `v, ok := x.(T)` in a loop body
-		return srcCase{"commaok-typeassert-define-in-loop", "typeassert2-define-in-loop", srcHead + fmt.Sprintf(`func main() {
-	xs := []interface{}{%d, "a", %d}
-	var ps []*int
+`, n, kd.typ, form)}
+	case 13: // F04-14 (repaired by 2fe0a18): `v, ok := x.(T)` in a loop body with failing assertions, &v kept, closures over ok
+		return srcCase{"commaok-typeassert-define-in-loop", "", srcHead + fmt.Sprintf(`func main() {
+	xs := []interface{}{%s, "a", %s, %d, nil, %s}
+	var ps []*%s
+	var fs []func() bool
 	for _, x := range xs {
-		v, ok := x.(int)
+		v, ok := x.(%s)
 		fmt.Println(v, ok)
 		ps = append(ps, &v)
+		fs = append(fs, func() bool { return ok })
 	}
-	fmt.Println(*ps[0], *ps[1], *ps[2])
+	var w %s
+	var wok bool
+	for j, x := range xs {
+		w, wok = x.(%s)
+		fmt.Println(*ps[j], fs[j](), w, wok)
+	}
 }
-`, a, b)}
-	case 14: // open finding: elided `&` of an array literal inside a composite literal
-		return srcCase{"elided-addr-array-literal", "elided-addr-array-lit", srcHead + fmt.Sprintf(`func main() {
-	ps := []*[%d]int{{%d}, {%d}}
+`, kd.lit(a, b), kd.lit(b, a), c, kd.lit(a, a), kd.typ, kd.typ, kd.typ, kd.typ)}
+	case 14: // F04-15 (repaired by e6767ff): elided & of array / slice / map / struct literals inside literals of pointers
+		return srcCase{"elided-addr-literals", "", srcHead + fmt.Sprintf(`func main() {
+	ps := []*[2]int{{%d, %d}, {%d}}
+	qs := []*[]int{{%d, %d}, {}}
+	ms := map[int]*map[int]int{1: {2: %d}}
+	ss := [2]*P{{%d, %d}, {Y: %d}}
+	var keep []*[2]int
+	for i := 0; i < %d; i++ {
+		ts := []*[2]int{{i, %d}}
+		keep = append(keep, ts[0])
+	}
 	*ps[0], *ps[1] = *ps[1], *ps[0]
-	fmt.Println(*ps[0], *ps[1])
+	*qs[1] = append(*qs[0], %d)
+	(*ms[1])[3] = %d
+	ss[1].X = ss[0].Y
+	keep[0][1] += %d
+	fmt.Println(*ps[0], *ps[1], *qs[0], *qs[1], *ms[1], *ss[0], *ss[1])
+	for _, k := range keep {
+		fmt.Println(*k)
+	}
 }
-`, 1+rng.Intn(2), a, b)}
-	default: // open finding: package-level comma-ok declaration
-		return srcCase{"package-level-commaok-var", "global-commaok-var", srcHead + fmt.Sprintf(`var gm = map[string]int{"x": %d}
+`, a, b, c, a, b, c, a, b, c, n, a, b, c, c)}
+	case 15: // F04-16 (repaired by 2d7bcd6): package-level comma-ok declarations (map index, type assertion, receive)
+		return srcCase{"package-level-commaok-var", "", srcHead + fmt.Sprintf(`var gm = map[string]%s{"x": %s}
 var gv, gok = gm[%q]
+var gi interface{} = %s
+var ga, gaok = gi.(%s)
+var gb, gbok = gi.(string)
+var gc = func() chan int { c := make(chan int, 1); c <- %d; close(c); return c }()
+var gr, grok = <-gc
+var gs, gsok = <-gc
 
 func main() {
-	fmt.Println(gv, gok)
+	fmt.Println(gv, gok, ga, gaok, gb, gbok, gr, grok, gs, gsok)
+	p := &gv
+	gv, gok = gm["x"]
+	fmt.Println(*p, gok)
 }
-`, a, []string{"x", "y"}[rng.Intn(2)])}
+`, kd.typ, kd.lit(a, b), []string{"x", "y"}[rng.Intn(2)], kd.lit(b, a), kd.typ, c)}
+	case 16: // F08-7 (repaired by 177a151): receive into an aliased variable, an element, a field, a pointee; return <-c
+		return srcCase{"receive-into-aliased-destinations", "", srcHead + fmt.Sprintf(`type T struct{ V %s }
+
+func get(c chan %s) %s { return <-c }
+
+func main() {
+	c := make(chan %s, 8)
+	for i := 0; i < 6; i++ {
+		c <- %s
+	}
+	x := %s
+	p := &x
+	f := func() %s { return x }
+	x = <-c
+	fmt.Println(x, *p, f())
+	var arr [2]%s
+	q := &arr[1]
+	arr[1] = <-c
+	t := T{}
+	pt := &t
+	t.V = <-c
+	pt.V = <-c
+	*p = <-c
+	fmt.Println(arr, *q, t, *pt, x, *p, f(), get(c))
+}
+`, kd.typ, kd.typ, kd.typ, kd.typ, strings.ReplaceAll(kd.lit(a, 77777), "77777", "i"), kd.lit(b, b), kd.typ, kd.typ)}
+	case 17: // F52 (repaired by 1c8103f): a short variable declaration of the loop variable's name in the body is a new variable
+		return srcCase{"loop-variable-redeclared-in-body", "", srcHead + fmt.Sprintf(`func main() {
+	var ps []*int
+	var fs []func() int
+	for i := 0; i < %d; i++ {
+		fs = append(fs, func() int { return i })
+		i := i*10 + %d
+		ps = append(ps, &i)
+		i += %d
+	}
+	for k, v := range []int{%d, %d} {
+		k := k + %d
+		v, w := v*2, k
+		ps = append(ps, &k, &v, &w)
+	}
+	for _, p := range ps {
+		fmt.Print(*p, " ")
+	}
+	fmt.Println()
+	for _, f := range fs {
+		fmt.Print(f(), " ")
+	}
+	fmt.Println()
+}
+`, n, a, b, a, b, c)}
+	case 18: // F51 (repaired by 231dea3): the bound of a range over an integer is evaluated once
+		return srcCase{"range-int-bound-copied", "", srcHead + fmt.Sprintf(`func main() {
+	n := %d
+	pn := &n
+	for i := range n {
+		n = 1
+		*pn += i
+		fmt.Println(i, n)
+	}
+	fmt.Println(n)
+}
+`, n+1)}
+	case 19: // open finding F04-17: a blank VALUE variable of a range clause is stored over the first variable of the frame
+		src := []string{"s", "a", "&a", "s[:1]"}[rng.Intn(4)]
+		return srcCase{"range-blank-value-variable", "range-blank-value-var", srcHead + fmt.Sprintf(`func main() {
+	x := %d
+	s := []int{%d, %d}
+	a := [2]int{%d, %d}
+	for i, _ := range %s {
+		fmt.Println(i)
+	}
+	fmt.Println("done", x, s, a)
+}
+`, c, a, b, b, a, src)}
+	case 20: // open finding F04-18: len / cap of a nil pointer to an array are constants of the type
+		return srcCase{"len-of-nil-pointer-to-array", "len-nil-ptr-array", srcHead + fmt.Sprintf(`func main() {
+	var pn *[%d]%s
+	fmt.Println(%s(pn))
+}
+`, n, kd.typ, []string{"len", "cap"}[rng.Intn(2)])}
+	default: // 1c8103f: local blank assignments get their own slots; blank range variables
+		return srcCase{"blank-assignments-and-blank-loop-variables", "", srcHead + fmt.Sprintf(`func main() {
+	x, s, f := %s, "s", func() int { return %d }
+	for _, v := range []%s{x} {
+		_ = s
+		_ = v
+		_ = f
+		_, _ = f(), v
+	}
+	for range [2]int{} {
+		_ = x
+		_ = f
+	}
+	_, ok := interface{}(x).(string)
+	_, z := f(), %s
+	fmt.Println(x, s, f(), ok, z)
+}
+`, kd.lit(a, b), c, kd.typ, agg.lit(b, a))}
 	}
 }
